@@ -137,3 +137,60 @@ func sliceBoundedAt(c *Ctx, f *ssa.Function, site ssa.Instruction, v ssa.Value, 
 }
 
 var _ = token.ADD
+
+// diffBoundedAt: high - low <= C whenever control reaches site (low == nil
+// means 0). Leaves of high that are `low + k` (k <= C) or min(.., low + k, ..)
+// are bounded outright; any other leaf X must be guarded by a comparison of
+// X - low with a constant, or of X with low + k.
+func diffBoundedAt(c *Ctx, f *ssa.Function, site ssa.Instruction, high, low ssa.Value, C int64) (string, int) {
+	isLowPlusK := func(v ssa.Value) bool {
+		if low == nil {
+			return isConstLE(C)(v)
+		}
+		b, ok := v.(*ssa.BinOp)
+		if !ok || b.Op != token.ADD {
+			return false
+		}
+		return (b.X == low && isConstLE(C)(b.Y)) || (b.Y == low && isConstLE(C)(b.X))
+	}
+	var okLeaf func(v ssa.Value) bool
+	okLeaf = func(v ssa.Value) bool {
+		if isLowPlusK(v) {
+			return true
+		}
+		if call, ok := v.(*ssa.Call); ok && calleeKey(call) == "builtin.min" {
+			for _, a := range call.Call.Args {
+				if okLeaf(a) {
+					return true
+				}
+			}
+		}
+		return false
+	}
+	if okLeaf(high) {
+		return "", 1
+	}
+	var cuts []EdgePred
+	if p, ok := high.(*ssa.Phi); ok {
+		cuts = append(cuts, edgeSet(phiEdgesWhere(p, okLeaf)))
+	}
+	for _, l := range phiLeaves(high) {
+		l := l
+		if okLeaf(l) {
+			continue
+		}
+		// X - low compared with a constant
+		cuts = append(cuts, leEdges(func(v ssa.Value) bool {
+			b, ok := v.(*ssa.BinOp)
+			if low == nil {
+				return v == l
+			}
+			return ok && b.Op == token.SUB && b.X == l && b.Y == low
+		}, C))
+		// X compared with low + k
+		if low != nil {
+			cuts = append(cuts, edgeExcl(func(v ssa.Value) bool { return v == l }, isLowPlusK, ordGT))
+		}
+	}
+	return (&Cut{Fn: f, Target: isInstr(site), EdgeCut: anyEdge(cuts...)}).Run(c)
+}
